@@ -332,13 +332,29 @@ func runWindow(c *c08Case) (feat map[string]bool, fail *kvh.Fail) {
 	resume := make(chan struct{})
 	var armed atomic.Bool
 	armed.Store(true)
-	gIO.SetOnPoint(func(name string, key []byte) {
-		if name == w.Point && armed.CompareAndSwap(true, false) {
+	park := func() {
+		if armed.CompareAndSwap(true, false) {
 			close(parked)
 			<-resume
 		}
-	})
-	defer gIO.SetOnPoint(nil)
+	}
+	if strings.HasPrefix(w.Point, "io.") {
+		// park A right before its first write/fsync system call (the engine's I/O call-out)
+		kind := strings.TrimPrefix(w.Point, "io.")
+		gIO.SetOnEvent(func(ev kvh.Event) {
+			if ev.Kind == kind && strings.HasPrefix(ev.Path, dir+"/") && armed.Load() {
+				park()
+			}
+		})
+		defer gIO.SetOnEvent(nil)
+	} else {
+		gIO.SetOnPoint(func(name string, key []byte) {
+			if name == w.Point {
+				park()
+			}
+		})
+		defer gIO.SetOnPoint(nil)
+	}
 	aDone := make(chan struct{})
 	go func() {
 		debug.SetPanicOnFault(true)
@@ -435,8 +451,8 @@ func deadlockOrTimeout(what string) *kvh.Fail {
 }
 
 var c08Points = map[string][]string{
-	"put":   {"put.appended"},
-	"del":   {"delete.checked", "delete.appended"},
+	"put":   {"put.appended", "io.write", "io.sync"},
+	"del":   {"delete.checked", "delete.appended", "io.write", "io.sync"},
 	"get":   {"get.indexed"},
 	"merge": {"merge.rotated", "merge.scan", "merge.scanned"},
 }
@@ -461,6 +477,12 @@ func c08Templates(t *testing.T, st *kvh.Stats) {
 								c.Pre = []c08Op{{K: "put", Key: "other", VLen: 20}}
 							}
 							c.Window = &c08Window{A: c08Op{K: ak, Key: "k", VLen: 30}, Point: point, B: c08Op{K: bk, Key: "k", VLen: 40}}
+							if point == "io.sync" {
+								c.Opt.Sync = 1 // Always: the operation fsyncs before it returns
+							}
+							if fs == 100 {
+								c.Window.B.VLen = 120 // larger than the limit: B's write rotates the active file inside A's window
+							}
 							if ak == "merge" {
 								c.Window.A.Key = ""
 							}
